@@ -260,6 +260,21 @@ func (s *Session) Churn(nNodes, nSpare, steps int) {
 			}
 		}
 	}
+	// joiners whose id is EXACTLY the hash of a key (the upper end of the range they take over is inclusive):
+	// half of the spare nodes, independent of the adjustment above
+	for i := nNodes; i < len(ids); i++ {
+		if rng.Chance(50) {
+			cand := HashOf(Pick(rng, KeyTokens))
+			dup := false
+			for _, x := range ids {
+				dup = dup || x == cand
+			}
+			if !dup {
+				ids[i] = cand
+				s.Run.Count("joiner-id:exactly-a-key-hash")
+			}
+		}
+	}
 	members := s.BuildRing(ids[:nNodes])
 	spare := append([]uint64{}, ids[nNodes:]...)
 	for _, j := range spare {
